@@ -55,7 +55,7 @@ def gen(rng, scenario, tier):
     if scenario == "ph":
         xs, drifts = workload.stream_values(rng, n, kind=rng.choice(["gauss", "gauss", "ramp", "heavy", "bern"]))
         cfg = {"det": "ph", "burn_in": rng.choice([0, 1, 2, 5, 10, 25]), "delta": rng.choice([0.005, 0.1, 0.5]),
-               "threshold": rng.choice([1, 3, 8, 20]), "direction": rng.choice(["positive", "negative"])}
+               "threshold": rng.choice([0, 1, 3, 8, 20]), "direction": rng.choice(["positive", "negative"])}
     else:
         xs, drifts = workload.stream_values(rng, n, kind=rng.choice(["gauss", "gauss", "ramp", "heavy"]),
                                             drift_rate=rng.choice([0.01, 0.02, 0.04]))
@@ -102,7 +102,10 @@ def run_ph(case, ctx):
         got = det.drift_state
         exp = "drift" if last["alarm"] else None
         if got != exp:
-            if last["margin"] <= 1e-9 * scale:   # (the running mean is a quotient: Page-Hinkley arithmetic is never exact, ties are not judged)
+            exact_zero_tie = cfg["threshold"] == 0 and last["page_hinkley_differences"] == 0.0
+            # the running mean is a quotient: Page-Hinkley arithmetic is never exact and ties are not judged - except the tie
+            # 0 > 0 (threshold 0 and the sum at its extreme), which is exact by construction on both sides
+            if last["margin"] <= 1e-9 * scale and not exact_zero_tie:
                 ctx.near_tie()
             ctx.violation("decision", "C04:ph:decision",
                           f"sample {t} (epoch {epoch_no}, n={len(epoch)}): model {exp!r} (difference {last['page_hinkley_differences']:.6g} vs theta {last['theta_threshold']:.6g}), detector {got!r}; cfg={cfg}")
